@@ -214,7 +214,14 @@ def classify(ctx, rep):
                 need(key, 'release', 'publishes the completed run of the once-function', w)
             elif s.kind == 'load':
                 um = util.users_map(fn)
-                cmp2 = any(u.op == 'icmp' and any(IR.is_int(o) and IR.ival(o) == 2 for o in u.ops) for u in um.get(s.inst.id, []))
+                # the loaded value may reach the `== 2` / `!= 2` test through the loop's phi (a local re-assigned in the wait loop)
+                reach, work = {s.inst.id}, [s.inst.id]
+                while work:
+                    r0 = work.pop()
+                    for u in um.get(r0, []):
+                        if u.op in ('phi', 'zext', 'trunc', 'select') and u.id not in reach:
+                            reach.add(u.id); work.append(u.id)
+                cmp2 = any(u.op == 'icmp' and any(IR.is_int(o) and IR.ival(o) == 2 for o in u.ops) for r0 in reach for u in um.get(r0, []))
                 if cmp2:
                     need(key, 'acquire', 'a caller returns on seeing 2; the load must acquire the once-function run', w)
                 else:
